@@ -24,6 +24,29 @@ INDEXMAP_INDEX_RESULTS = {"index", "get_full", "get_full_mut", "get_full_mut2", 
                           "get_index_of", "insert_sorted"}
 
 
+# cursor fields of the raw-pointer iterators, by role: {(type path, field): 'front' | 'back'}; filled per view by
+# set_cursor_fields() from the MIR of their next / next_back (whatever the fields are called)
+CURSOR_FIELDS = {}
+
+
+def set_cursor_fields(view):
+    from .rules_iter import raw_extension_sites, cursor_info
+    CURSOR_FIELDS.clear()
+    for k in raw_extension_sites(view):
+        f = view.prog.fn(k)
+        if f is None or f.name not in ("next", "next_back"):
+            continue
+        T = (f.j.get("impl_self") or {}).get("path")
+        ci = cursor_info(view, f)
+        if T and ci["cursor"]:
+            CURSOR_FIELDS[(T, ci["cursor"])] = "front" if f.name == "next" else "back"
+
+
+def is_cursor(t, role=None):
+    """t = `self.<f>` with <f> a cursor field of its iterator type"""
+    return t[0] == "field" and (t[3], t[2]) in CURSOR_FIELDS and (role is None or CURSOR_FIELDS[(t[3], t[2])] == role)
+
+
 def unit_of(t, depth=0):
     """unit of a usize-valued term: 'Position' | 'Index' | 'const' | 'slot' (map index from the indexmap API) | 'cursor' | None"""
     t = strip(t)
@@ -46,7 +69,7 @@ def unit_of(t, depth=0):
             if b[0] == "call" and b[1].split("::")[-1] in INDEXMAP_INDEX_RESULTS:
                 return "Index"
         # iterator cursor fields (map slot cursors of the IterMut types)
-        if t[2] in ("pos", "pos_back") and t[3] and t[3].endswith("IterMut"):
+        if is_cursor(t):
             return "Index"
         return None
     if k == "call":
@@ -69,6 +92,7 @@ def unit_of(t, depth=0):
 
 
 def r_units(ctx, view, only=None):
+    set_cursor_fields(view)
     prog = view.prog
     fvp = FlowVP(view)
     ctx.cur = view
@@ -159,6 +183,7 @@ class Facts:
         f, rb = self.f, self.rb
         cfg = f.cfg
         fvp = rb.fvp
+        groups = {}
         for sb in sorted(cfg.reach):
             t = f.term(sb)
             if t["k"] != "switch" or not cfg.dominates(sb, self.bb) or sb == self.bb:
@@ -176,16 +201,27 @@ class Facts:
             vals = [v for v, tb in t["targets"] if tb == tk]
             is_else = (t["otherwise"] == tk)
             d = fvp.switch_discr(f, sb)
-            # the guard speaks about the state at `sb`; the obligation is at `bb`: what the code between the two does to
-            # the length decides how much of the guard is still true (a removal between `!is_empty()` and the use)
-            shr, grw = rb.len_changes_between(f, sb, tk, self.bb)
+            # the guard speaks about the state in which its length was READ (the switch itself for `if self.is_empty()`, the
+            # definition of the snapshot for `let n = self.len(); ..; if n != 1`); the obligation is at `bb`: what the code
+            # between the two does to the length decides how much of the guard is still true
+            reads = rb.len_read_sites(f, sb)
+            gkey = tuple(reads) if reads else ("at", sb, tk)
+            groups.setdefault(gkey, []).append((sb, tk, strip(d), vals, is_else, [v for v, _ in t["targets"]]))
+        for gkey, guards in groups.items():
+            if gkey and gkey[0] == "at":
+                shr, grw = rb.len_changes_between(f, guards[0][0], [(guards[0][1], "block", 0, "*")], self.bb)
+            else:
+                # a path that re-reads the length re-establishes the guard: cut at the (single) read
+                shr, grw = rb.len_changes_between(f, None, list(gkey), self.bb)
             if shr == 0 and grw == 0:
-                self.add_fact(strip(d), vals, is_else, [v for v, _ in t["targets"]])
+                for (sb, tk, d, vals, is_else, allv) in guards:
+                    self.add_fact(d, vals, is_else, allv)
                 continue
             tmp = Facts.__new__(Facts)
             tmp.rb, tmp.f, tmp.bb = rb, f, self.bb
             tmp.lt_len, tmp.ge1, tmp.len_ge, tmp.le_parent_last, tmp.key_present, tmp.lt = set(), set(), 0, set(), set(), set()
-            tmp.add_fact(strip(d), vals, is_else, [v for v, _ in t["targets"]])
+            for (sb, tk, d, vals, is_else, allv) in guards:
+                tmp.add_fact(d, vals, is_else, allv)
             if shr == 0:
                 # growth only: lower bounds and `< LEN` facts survive, upper bounds and exact lengths do not
                 self.lt_len |= tmp.lt_len
@@ -199,7 +235,6 @@ class Facts:
                 # removals between guard and use: `LEN >= k` degrades to `LEN >= k - removals`; nothing else about LEN survives
                 if shr is not None and tmp.len_ge - shr > 0:
                     self.len_ge = max(self.len_ge, tmp.len_ge - shr)
-                lenc = c_len = None
                 for x in tmp.ge1:
                     if x != "LEN":
                         self.ge1.add(x)
@@ -380,33 +415,39 @@ class RB:
         SHR = {"MW:shrink", "MW:clear", "MW:retain", "MW:raw"}
         GRW = {"MW:grow", "MW:raw"}
         out = {}
+        self._lce = getattr(self, "_lce", {})
+        pos_list = self._lce.setdefault(f.key, [])
+        cur = [None]
 
-        def mark(bb, s, g):
+        def mark(bb, s, g, comp="*"):
             a, b = out.get(bb, (False, False))
             out[bb] = (a or s, b or g)
+            si = cur[0].get("si") if cur[0] is not None else "term"
+            pos_list.append((bb, 10 ** 6 if si == "term" else si, s, g, comp))
 
         for ev in fx.events(f):
             k = ev["kind"]
+            cur[0] = ev
             if k == "tw":
                 how = ev.get("how") or ""
                 if how.startswith("call:"):
                     nm = how[5:].split("::")[-1]
                     if nm in ("swap_remove", "pop", "truncate", "clear", "drain", "remove", "retain", "retain_mut", "split_off", "take", "replace", "swap"):
-                        mark(ev["bb"], True, nm in ("take", "replace", "swap"))
+                        mark(ev["bb"], True, nm in ("take", "replace", "swap"), ev.get("comp") if ev.get("comp") in ("heap", "qp") else "*")
                     elif nm in ("push", "insert", "extend", "resize", "append", "extend_from_slice"):
-                        mark(ev["bb"], False, True)
+                        mark(ev["bb"], False, True, ev.get("comp") if ev.get("comp") in ("heap", "qp") else "*")
                 elif ev.get("comp") == "size":
                     v = strip(ev.get("val") or ("other",))
                     if v[0] == "field" and v[1][0] == "binop":
                         v = v[1]
                     op = v[1] if v[0] == "binop" else ""
-                    mark(ev["bb"], not op.startswith("Add"), not op.startswith("Sub"))
+                    mark(ev["bb"], not op.startswith("Add"), not op.startswith("Sub"), "size")
             elif k in ("mw", "mwraw"):
                 mc = ev.get("mclass", "raw")
                 if mc in ("shrink", "clear", "retain", "raw"):
-                    mark(ev["bb"], True, mc == "raw")
+                    mark(ev["bb"], True, mc == "raw", "map")
                 elif mc == "grow":
-                    mark(ev["bb"], False, True)
+                    mark(ev["bb"], False, True, "map")
             if "ci" in ev:
                 ci = ev["ci"]
                 tg = ([ci.local_callee] if ci.local_callee else []) + [c for c in ci.closures if c in self.view.prog.fns]
@@ -421,46 +462,119 @@ class RB:
         self._lcb[f.key] = out
         return out
 
-    def len_changes_between(self, f, guard, start, end):
-        """(max number of removing events, number of adding events) on the paths start ->* end that do not pass through
-        the guard block again (a path that does re-establishes the guard); the events of `end` itself come after the use
-        and do not count; removals on a cycle inside that region give None (unbounded)"""
-        lcb = self.len_change_blocks(f)
-        if not lcb or start == end:
+    def len_read_sites(self, f, sb):
+        """where the length tested by the switch at sb was read: [(block, 'call'|'stmt')] following single-assignment
+        locals backwards from the discriminant (a `len()` / `is_empty()` call, a read of the `size` field); [] when the
+        discriminant does not read the length through such a chain"""
+        out = set()
+        seen = set()
+
+        def op(o, depth):
+            if o["k"] not in ("copy", "move") or depth > 8:
+                return
+            pl = o["place"]
+            if any(e["k"] == "field" and e.get("name") == "size" and e.get("of") == "store::Store" for e in pl["proj"]):
+                return "size"
+            l = pl["local"]
+            if pl["proj"] and pl["proj"][0]["k"] == "deref":
+                # `*size` with `size = &mut self.size` (destructured self): the read happens here, not where the reference was made
+                dr = f.defs.get(l, [])
+                if len(dr) == 1 and dr[0][0] == "stmt" and dr[0][3]["rv"]["k"] == "ref" and any(
+                        e["k"] == "field" and e.get("name") == "size" and e.get("of") == "store::Store" for e in dr[0][3]["rv"]["place"]["proj"]):
+                    return "size"
+            if l in seen:
+                return
+            seen.add(l)
+            ds = f.defs.get(l, [])
+            if len(ds) != 1 or f.locals[l]["arg"]:
+                return
+            d = ds[0]
+            if d[0] == "call":
+                t = d[2]
+                nm = t["func"]["name"] if "func" in t else ""
+                if nm in ("len", "is_empty"):
+                    q = "size"
+                    ci = self.view.fx.call_info(f, d[1])
+                    if not ci.local_callee:
+                        a = self.view.fx.args_vp(ci)
+                        c = component(a[0]) if a else None
+                        q = c[0] if c and c[0] in ("heap", "qp", "map", "size") else "*"
+                    out.add((d[1], "call", 10 ** 6, q))
+                return
+            rv = d[3]["rv"]
+            for k in ("op", "a", "b"):
+                if isinstance(rv.get(k), dict):
+                    if op(rv[k], depth + 1) == "size":
+                        out.add((d[1], "stmt", d[2], "size"))
+            if rv["k"] != "ref" and "place" in rv:
+                pl2 = rv["place"]
+                if any(e["k"] == "field" and e.get("name") == "size" and e.get("of") == "store::Store" for e in pl2["proj"]):
+                    out.add((d[1], "stmt", d[2], "size"))
+        t = f.term(sb)
+        if op(t["discr"], 0) == "size":
+            out.add((sb, "stmt", 10 ** 6, "size"))
+        return sorted(out, key=str)
+
+    def len_changes_between(self, f, guard, starts, end):
+        """(max number of removing events, number of adding events) between the read(s) of the length and `end`.
+        starts: [(block, kind, pos, quantity)]: kind 'block' = from the beginning of that block (a taken edge); 'call' = after
+        that block's terminator (the len() call itself); 'stmt' = from statement pos of that block on.  quantity = which
+        length was read ('size', 'heap', 'qp', 'map', '*'): inside the shrink primitives the four differ transiently, and only
+        events on the quantity read (or on the whole store / through a callee) count.  Paths through the guard block (or
+        through the read) re-establish the fact and are cut; the events of `end` itself come after the use; removals on a
+        cycle inside the region give None (unbounded)"""
+        self.len_change_blocks(f)
+        evs = self._lce.get(f.key, [])
+        if not evs:
+            return 0, 0
+        qs = {q for (_, _, _, q) in starts}
+        evs = [e for e in evs if e[4] == "*" or "*" in qs or e[4] in qs]
+        if not evs:
             return 0, 0
         cfg = f.cfg
+        cut = {guard} if guard is not None else {b for b, k, si, q in starts}
 
-        def reach(frm, edges):
-            seen = {frm}
-            st = [frm]
+        def reach(frm_list, edges):
+            seen = set(frm_list)
+            st = list(frm_list)
             while st:
                 x = st.pop()
                 for y in edges[x]:
-                    if y not in seen and y != guard:
+                    if y not in seen and y not in cut:
                         seen.add(y)
                         st.append(y)
             return seen
 
-        fwd = reach(start, cfg.succ)
-        bwd = reach(end, cfg.pred)
+        first = []
+        own = []   # events of the read's own block that come after the read
+        for b, kind, si, q in starts:
+            if kind == "block":
+                first.append(b)
+            else:
+                if b != end:
+                    first.extend(cfg.succ[b])
+                if kind == "stmt":
+                    own.extend(e for e in evs if e[0] == b and e[1] > si and (b != end or e[1] < 10 ** 6))
+        fwd = reach(first, cfg.succ) if first else set()
+        bwd = reach([end], cfg.pred) | {end}
         region = (fwd & bwd) - {end}
-        shr = [b for b in region if lcb.get(b, (False, False))[0]]
-        grw = [b for b in region if lcb.get(b, (False, False))[1]]
-        if not shr:
-            return 0, len(grw)
-        for b in shr:
-            # on a cycle that stays inside the region ?
+        shr_b = sorted({e[0] for e in evs if e[0] in region and e[2]})
+        grw_n = len({e[0] for e in evs if e[0] in region and e[3]}) + len([e for e in own if e[3]])
+        own_shr = [e for e in own if e[2]]
+        if not shr_b and not own_shr:
+            return 0, grw_n
+        for b in shr_b:
             seen = set()
             st = [y for y in cfg.succ[b] if y in region]
             while st:
                 x = st.pop()
                 if x == b:
-                    return None, len(grw)
+                    return None, grw_n
                 if x in seen:
                     continue
                 seen.add(x)
                 st.extend(y for y in cfg.succ[x] if y in region)
-        return len(shr), len(grw)
+        return len(shr_b) + len(own_shr), grw_n
 
     def is_len(self, t):
         t = strip(t)
@@ -607,7 +721,7 @@ class RB:
                 ok, why = self.valid(f, bb, base, kind, depth + 1, seen)
                 if ok:
                     return True, why
-            if t[2] in ("pos", "pos_back"):
+            if is_cursor(t):
                 return False, "cursor"
             if base[0] == "cparam":
                 return self.cparam_valid(f, base)
@@ -624,6 +738,30 @@ class RB:
                     return True, "b3: slot index returned by indexmap"
                 if nm in ("get", "first") and x[2] and component(x[2][0]) and component(x[2][0])[0] in ("heap", "qp"):
                     return True, "b2: element of the inverse table obtained through a checked read"
+                if nm in ("next", "next_back") and x[2]:
+                    # `for &i in self.heap.iter()`: the loop variable is an element of the inverse table
+                    y = strip(x[2][0])
+                    hops = 0
+                    while hops < 8:
+                        hops += 1
+                        while y[0] in ("ref", "deref", "defat"):
+                            y = strip(y[1] if y[0] != "defat" else y[2])
+                        if y[0] == "mu":
+                            alts = [a for a in y[1] if a[0] != "rec"]
+                            if len(alts) != 1:
+                                break
+                            y = strip(alts[0])
+                            continue
+                        if y[0] == "call" and y[2] and y[1].split("::")[-1] in ("into_iter", "iter", "rev", "copied", "cloned", "by_ref", "deref"):
+                            c = component(y[2][0])
+                            if c and c[0] in ("heap", "qp") and y[1].split("::")[-1] in ("iter", "into_iter", "deref"):
+                                return True, "b2: element of the inverse table (iteration)"
+                            y = strip(y[2][0])
+                            continue
+                        c = component(y)
+                        if c and c[0] in ("heap", "qp"):
+                            return True, "b2: element of the inverse table (iteration)"
+                        break
             return False, "payload of %s" % term_str(x)[:40]
         if k == "downcast":
             return self.valid(f, bb, ("some", t[1]) if t[2] == "Some" else t[1], kind, depth + 1, seen)
@@ -753,6 +891,7 @@ def root_key(prog, f):
 
 
 def r_bounds(ctx, view):
+    set_cursor_fields(view)
     prog = view.prog
     fx = view.fx
     rb = RB(view)
@@ -1007,8 +1146,8 @@ def arith_ok(rb, f, bi, t):
         if (B, A) in fa.lt:
             return True, "b1: guarded by subtrahend < minuend"
         sa, sb = strip(a), strip(b)
-        if sa[0] == "field" and sb[0] == "field" and sa[2] == "pos_back" and sb[2] == "pos":
-            return True, "iterator invariant pos <= pos_back (maintained by the cursor discipline, R-CURSOR c2)"
+        if sa[0] == "field" and sb[0] == "field" and is_cursor(sa, "back") and is_cursor(sb, "front") and sa[3] == sb[3]:
+            return True, "iterator invariant front cursor <= back cursor (maintained by the cursor discipline, R-CURSOR c2)"
         if "BITS" in term_str(a) or "leading_zeros" in term_str(b) + term_str(a):
             con = CONTRACTS.get(f.key, {})
             if con.get("n>=1"):
@@ -1031,7 +1170,7 @@ def bounded_by_allocation(rb, t):
     if t[0] == "field":
         if t[3] in (POSITION, INDEX):
             return True   # positions / indexes are table subscripts
-        if t[2] in ("pos", "pos_back", "size"):
+        if is_cursor(t) or (t[2] == "size" and t[3] == "store::Store"):
             return True
         if t[1][0] == "binop":
             return bounded_by_allocation(rb, t[1])
